@@ -6,8 +6,11 @@ patch="$1"; tier="$2"; shift 2
 cd /repo || exit 2
 if ! git diff --quiet; then echo "repo dirty"; exit 2; fi
 git apply $rev "$patch" || { echo "patch does not apply"; exit 2; }
+rm -rf /tmp/tlcw/evidence.bak; cp -r /verif/evidence /tmp/tlcw/evidence.bak 2>/dev/null
 for c in "$@"; do
   out=$(cd /verif && ./check "$c" --tier "$tier" 2>&1); rc=$?
   echo "== $c rc=$rc"; echo "$out" | grep -E "VIOLATION|KNOWN-FINDING|TOOL-ERROR|^\[C|^  " | head -12
 done
 git -C /repo checkout -- .
+# evidence written while a patch was applied says nothing about the real tree: put the previous files back
+if [ -d /tmp/tlcw/evidence.bak ]; then rm -rf /verif/evidence; mv /tmp/tlcw/evidence.bak /verif/evidence; fi
